@@ -4,7 +4,7 @@
 #                                      results are filed under /verif/seeded/<PROP>-<n>/
 # The lab keeps /repo and /verif/mc free for other work while seeds are being processed.
 set -u
-LAB=/tmp/seedlab
+LAB=${LAB:-/tmp/seedlab}
 case "${1:-}" in
 setup)
   rm -rf $LAB/mc $LAB/check; mkdir -p $LAB/out
@@ -19,17 +19,20 @@ run)
   P="$2"; N="$3"; shift 3
   IDS="${*:-C01 C02 C03 C04 C05 C06 C07 C08 C09 C10 C11 C12 C13 C14 C15 C16 C17 C18 C19 C20}"
   SRC=/tmp/seed-out/$P/$N; DST=/verif/seeded/$P-$N
+  # a seed already filed under /verif/seeded can be re-run from there (e.g. in a later session)
+  [ -f "$SRC/patch.diff" ] || SRC=$DST
   [ -f "$SRC/patch.diff" ] || { echo "no seed at $SRC"; exit 2; }
-  mkdir -p "$DST"; cp "$SRC/patch.diff" "$DST/"; cp "$SRC/demo.rs" "$SRC/notes.md" "$DST/" 2>/dev/null
+  mkdir -p "$DST"
+  if [ "$SRC" != "$DST" ]; then cp "$SRC/patch.diff" "$DST/"; cp "$SRC/demo.rs" "$SRC/notes.md" "$DST/" 2>/dev/null; for extra in "$SRC"/*.diff; do cp -n "$extra" "$DST/" 2>/dev/null; done; fi
   cd $LAB/repo && git checkout -q -- . && rm -f tests/seed_demo.rs
   {
     if ! git apply --check "$SRC/patch.diff" 2>/dev/null; then echo "APPLY: FAIL"; echo "SEED REJECTED"; else
     echo "APPLY: ok"; ok=1
     cp "$SRC/demo.rs" tests/seed_demo.rs
-    if cargo test --offline --test seed_demo >/tmp/seedlab/demo_clean.log 2>&1; then echo "DEMO-WITHOUT-PATCH: passes"; else echo "DEMO-WITHOUT-PATCH: FAILS (bad seed)"; ok=0; fi
+    if cargo test --offline --test seed_demo >$LAB/demo_clean.log 2>&1; then echo "DEMO-WITHOUT-PATCH: passes"; else echo "DEMO-WITHOUT-PATCH: FAILS (bad seed)"; ok=0; fi
     git apply "$SRC/patch.diff"
-    if cargo test --offline --test seed_demo >/tmp/seedlab/demo_patched.log 2>&1; then echo "DEMO-WITH-PATCH: passes (bad seed)"; ok=0
-    elif grep -q "error\[E\|could not compile" /tmp/seedlab/demo_patched.log; then echo "DEMO-WITH-PATCH: does not compile (bad seed)"; ok=0; else echo "DEMO-WITH-PATCH: fails"; fi
+    if cargo test --offline --test seed_demo >$LAB/demo_patched.log 2>&1; then echo "DEMO-WITH-PATCH: passes (bad seed)"; ok=0
+    elif grep -q "error\[E\|could not compile" $LAB/demo_patched.log; then echo "DEMO-WITH-PATCH: does not compile (bad seed)"; ok=0; else echo "DEMO-WITH-PATCH: fails"; fi
     rm -f tests/seed_demo.rs
     res=$(cargo test --workspace --no-fail-fast --offline 2>&1 | grep -E "^test result" | awk '{p+=$4; f+=$6} END {print p" passed "f" failed"}')
     echo "SUITE-WITH-PATCH: $res"
